@@ -74,6 +74,7 @@ static const std::string* g_dyndep_override;     // when set: the text the comma
 static const char* g_dyndep_override_out = "dd";
 static const std::string* g_depfile_override;    // when set: the bytes every command writes into its depfile (C13: arbitrary depfile content through both consumers)
 static bool g_mkdir_may_fail;          // directory creation may fail (permissions, a file in the way)
+static bool g_midrun_edit_done;        // at most one source is edited while a command runs, per history
 static bool g_dead;                    // the simulated process has died: nothing ninja does persists any more (C07)
 static void persistence_event() { if (verif_vfs_event()) g_dead = true; }     // one event counter for DiskInterface and stdio/unistd mutations
 
@@ -120,7 +121,7 @@ static long mix(int ordinal, int k, const std::vector<long>& in, int flags, long
 }
 // declared-input view of the current manifest used by the reference ("what would a from-scratch build produce")
 struct RefEdge { std::vector<std::string> outs, reads, order_only, validations; int ordinal; int flags; bool phony; bool generator; size_t ndeclared; std::string command, plain_depfile; long cmdh;
-  std::string depfile, rspfile, rspfile_content, pool_name, deps_type; int pool_depth; bool console; };
+  std::string depfile, rspfile, rspfile_content, pool_name, deps_type; int pool_depth; bool console; bool restat; };
 static std::vector<RefEdge> g_ref;
 static void build_reference(State* st) {
   g_ref.clear();
@@ -134,7 +135,7 @@ static void build_reference(State* st) {
     for (size_t k = 0; k < e->validations_.size(); k++) r.validations.push_back(e->validations_[k]->path());
     r.ndeclared = r.reads.size(); r.generator = e->GetBindingBool("generator"); r.command = e->EvaluateCommand(true); r.cmdh = r.generator ? 0 : cmd_hash(r.command);
     if (e->GetBinding("deps").empty()) r.plain_depfile = e->GetUnescapedDepfile();
-    r.depfile = e->GetUnescapedDepfile(); r.rspfile = e->GetUnescapedRspfile(); r.rspfile_content = e->GetBinding("rspfile_content"); r.pool_name = e->pool()->name(); r.pool_depth = e->pool()->depth(); r.console = e->use_console(); r.deps_type = e->GetBinding("deps");
+    r.depfile = e->GetUnescapedDepfile(); r.rspfile = e->GetUnescapedRspfile(); r.rspfile_content = e->GetBinding("rspfile_content"); r.pool_name = e->pool()->name(); r.pool_depth = e->pool()->depth(); r.console = e->use_console(); r.deps_type = e->GetBinding("deps"); r.restat = e->GetBindingBool("restat");
     const CmdSpec* s = spec_for(r.outs[0]); r.flags = s ? s->flags : 0;
     if (s) { std::vector<std::string> x = split_words(s->extra_reads);
              // "one.h|two.h": which of the two the command includes depends on the current text of its first declared input (the source switched its #include)
@@ -196,11 +197,12 @@ static LastRun g_last[16];
 // a build command that runs `ninja -t restat` itself: the real BuildLog::Restat rewrites .ninja_log (temporary file + rename) under the feet of the
 // ninja that started the command
 static void run_restat_tool_from_command();
+static void edit_file(const std::string& name, int amount);
 // ------------------------------------------------------------------------------------------------ the command runner
 struct Running { Edge* edge; std::vector<long> snap; bool missing_input; int flags; bool phantom; long stdout_len_at_start; long cmdh; };
 struct TokenPool;
-struct RunnerOpts { int parallelism; bool may_fail; bool may_interrupt; bool check_inputs_fresh; bool failed_touch; bool start_may_fail; bool check_idle; bool sym_exit_code; bool prints_output; TokenPool* tokens; Builder* builder; int failures_allowed;
-  RunnerOpts() : parallelism(1), may_fail(false), may_interrupt(false), check_inputs_fresh(false), failed_touch(false), start_may_fail(false), check_idle(false), sym_exit_code(false), prints_output(false), tokens(NULL), builder(NULL), failures_allowed(1) {} };
+struct RunnerOpts { int parallelism; bool may_fail; bool may_interrupt; bool check_inputs_fresh; bool failed_touch; bool start_may_fail; bool check_idle; bool sym_exit_code; bool prints_output; bool edit_during_run; TokenPool* tokens; Builder* builder; int failures_allowed;
+  RunnerOpts() : parallelism(1), may_fail(false), may_interrupt(false), check_inputs_fresh(false), failed_touch(false), start_may_fail(false), check_idle(false), sym_exit_code(false), prints_output(false), edit_during_run(false), tokens(NULL), builder(NULL), failures_allowed(1) {} };
 // a GNU make jobserver pool reduced to its protocol: one implicit slot plus `pool` explicit tokens; acquiring may fail whenever the pool is empty
 struct TokenPool : public Jobserver::Client {
   int pool, acquired, released; bool implicit_out; TokenPool(int n) : pool(n), acquired(0), released(0), implicit_out(false) {}
@@ -311,6 +313,15 @@ struct SymRunner : public CommandRunner {
       return BuildResult::CommandCompleted(e, st, opt.prints_output ? "<<err " + e->outputs_[0]->path() + ">>\n" : std::string("boom"));
     }
     const CmdSpec* s = spec_for(e->outputs_[0]->path());
+    // the user saves one of the sources this command has already read while it is still running: the outputs it is about to write are newer
+    // than that edit but made from the old text (C01: "picked up by the next run", restat and generator rules excepted)
+    // (whether a statement is a restat / generator statement is taken from the manifest as written, not from the live edge)
+    bool excepted = (r.flags & KEEP_IF_SAME) != 0; for (size_t i = 0; i < g_ref.size(); i++) if (g_ref[i].ordinal == ord) excepted = excepted || g_ref[i].restat || g_ref[i].generator;
+    if (opt.edit_during_run && !g_midrun_edit_done && !excepted) {
+      std::vector<std::string> rd = read_set(e);
+      for (size_t i = 0; i < rd.size() && !g_midrun_edit_done; i++) { VFile* f = g_tree->find(rd[i]); if (!f || !f->exists || f->is_text || ref_producer(rd[i])) continue;
+        if (verif_bool("source_edited_while_command_ran")) { edit_file(rd[i], 1); g_midrun_edit_done = true; events.push_back("midedit " + rd[i]); } }
+    }
     for (size_t k = 0; k < e->outputs_.size(); k++) {
       const std::string& p = e->outputs_[k]->path();
       if (s && s->dyndep_text && k == 0) {
@@ -448,7 +459,7 @@ static int regen_variant() {
 }
 static void init_tree(const Scenario* sc) {
   for (int i = 0; i < 16; i++) g_last[i] = LastRun();
-  g_sc = sc; g_tree = new Tree; g_manifest_variant = 0; g_mkdir_may_fail = false; g_dead = false;
+  g_sc = sc; g_tree = new Tree; g_manifest_variant = 0; g_mkdir_may_fail = false; g_dead = false; g_midrun_edit_done = false;
   std::vector<std::string> src = split_words(sc->sources);
   for (size_t i = 0; i < src.size(); i++) { VFile f; f.name = src[i]; f.exists = true; f.mtime = 1; f.content = 100 + 10 * (long)i; f.is_text = false; if (src[i].compare(0, 2, "eq") == 0) f.content = 501; g_tree->files.push_back(f); }      // files named eq* start out with equal (odd) contents: the next edit changes what a HALVE command makes of them
   // a dyndep file that is checked in rather than generated: a source holding the dyndep text
@@ -528,5 +539,6 @@ struct MinRef {
   }
 };
 static bool same_set(std::vector<int> a, std::vector<int> b) { if (a.size() != b.size()) return false; for (size_t i = 0; i < a.size(); i++) { bool f = false; for (size_t k = 0; k < b.size(); k++) f = f || a[i] == b[k]; if (!f) return false; } return true; }
-static void edit_file(const std::string& name, int amount = 1) { VFile* f = g_tree->get(name); if (f->exists && f->is_text) return;      /* (checked-in dyndep files are not edited) */ f->exists = true; f->is_text = false; f->content += amount; f->mtime = g_tree->tick(); }
+static void edit_file(const std::string& name, int amount) { VFile* f = g_tree->get(name); if (f->exists && f->is_text) return;      /* (checked-in dyndep files are not edited) */ f->exists = true; f->is_text = false; f->content += amount; f->mtime = g_tree->tick(); }
+static inline void edit_file(const std::string& name) { edit_file(name, 1); }
 #endif
